@@ -83,6 +83,10 @@ func (p Params) Validate() error {
 		return fmt.Errorf("oracle parameter VoteThreshold must be greater than 33 percent")
 	}
 
+	if p.VoteThreshold.GT(math.LegacyOneDec()) {
+		return fmt.Errorf("oracle parameter VoteThreshold must not exceed 100 percent")
+	}
+
 	if p.MinVoters <= 0 {
 		return fmt.Errorf("oracle parameter MinVoters must be greater than 0")
 	}
